@@ -429,6 +429,52 @@ def bounded(pr):
                                      'differ from processing it alone' % os.path.basename(f), 'replay': None})
     except (Exception, SystemExit) as e:    # noqa
         viol.append({'what': 'several files in one invocation: %s: %s' % (type(e).__name__, e), 'replay': None})
+    # the real command-line entry point (propka.run.main) given several files at once, in two orders: every written .pka file equals the
+    # file written when that structure is the only input
+    import contextlib
+    import logging as _logging
+    d5 = tempfile.mkdtemp()
+    cwd0 = os.getcwd()
+    try:
+        def body5(path):
+            txt = open(path).read()
+            i = txt.find('---------  -----')
+            return txt[i:] if i >= 0 else txt
+
+        def run_main(args, sub):
+            wd = os.path.join(d5, sub)
+            os.mkdir(wd)
+            os.chdir(wd)
+            root = _logging.getLogger('')
+            before = list(root.handlers)
+            try:
+                with contextlib.redirect_stdout(io.StringIO()):
+                    run.main([args])
+            finally:
+                os.chdir(cwd0)
+                for h in list(root.handlers):
+                    if h not in before:
+                        root.removeHandler(h)
+            return {f[:-4]: body5(os.path.join(wd, f)) for f in os.listdir(wd) if f.endswith('.pka')}
+        trio = ['1FTJ-Chain-A', '1HPX', '3SGB-subset']
+        paths = {n: os.path.join(native.PDB_DIR, n + '.pdb') for n in trio}
+        alone = {}
+        for n in trio:
+            alone.update(run_main(['-q', paths[n]], 'alone-' + n))
+        for k_, order in enumerate((trio, trio[::-1])):
+            ev += 1
+            classes.add('run.main, several files')
+            together = run_main(['-q'] + [a for n in order[:-1] for a in ('-f', paths[n])] + [paths[order[-1]]], 'together%d' % k_)
+            for n in order:
+                if together.get(n) != alone.get(n) and len(viol) < 3:
+                    viol.append({'what': 'propka.run.main with the files %r in one invocation: %s.pka differs from the file written when %s '
+                                         'is the only input' % (order, n, n), 'replay': None})
+    except (Exception, SystemExit) as e:    # noqa
+        viol.append({'what': 'run.main with several files: %s: %s' % (type(e).__name__, e), 'replay': None})
+    finally:
+        os.chdir(cwd0)
+        import shutil
+        shutil.rmtree(d5, ignore_errors=True)
     # the coupled-residue display on a system of three coupled groups (1FTJ-Chain-A) under different hash seeds
     refd = fresh('1FTJ-Chain-A', ['-d'], seed=0)
     for sd in (2, 3) if pr.tier == 'quick' else (1, 2, 3, 4, 5, 6, 7):
